@@ -339,6 +339,8 @@ impl<C: CrcCalculator> Encapsulator<C> {
             return Err(EncapError::ErrorProtocolType);
         }
 
+        // the re-use bookkeeping is undone if the call fails later on
+        let saved_re_use_state = (self.last_label, self.re_current_consecutive);
         label = self.check_label_re_use(label);
         let label_len = label.len();
         let pdu_len = pdu.len();
@@ -366,12 +368,14 @@ impl<C: CrcCalculator> Encapsulator<C> {
             // check the buffer size
             // if it cannot write at least more than the header
             if buffer_len < min_header_len {
+                (self.last_label, self.re_current_consecutive) = saved_re_use_state;
                 return Err(EncapError::ErrorSizeBuffer);
             }
 
             // check the metadata len
             // if the protocol cannot handle such large amounts of data
             if TOTAL_LEN_MAX < pdu_len + PROTOCOL_LEN + label_len {
+                (self.last_label, self.re_current_consecutive) = saved_re_use_state;
                 return Err(EncapError::ErrorPduLength);
             }
 
@@ -648,6 +652,8 @@ impl<C: CrcCalculator> Encapsulator<C> {
             return Err(EncapError::ErrorInvalidLabel);
         }
 
+        // the re-use bookkeeping is undone if the call fails later on
+        let saved_re_use_state = (self.last_label, self.re_current_consecutive);
         label = self.check_label_re_use(label);
         let label_len = label.len();
         let pdu_len = pdu.len();
@@ -676,12 +682,14 @@ impl<C: CrcCalculator> Encapsulator<C> {
             // check the buffer size
             // if it cannot write at least more than the header
             if buffer_len < min_header_len {
+                (self.last_label, self.re_current_consecutive) = saved_re_use_state;
                 return Err(EncapError::ErrorSizeBuffer);
             }
 
             // check the metadata len
             // if the protocol cannot handle such large amounts of data
             if TOTAL_LEN_MAX < pdu_len + PROTOCOL_LEN + label_len {
+                (self.last_label, self.re_current_consecutive) = saved_re_use_state;
                 return Err(EncapError::ErrorPduLength);
             }
 
